@@ -8,11 +8,12 @@ __author__ = "Thomas McCullough"
 
 from typing import List, Union, Optional, Dict, Tuple
 import logging
+from xml.etree import ElementTree
 
 import numpy
 
 from sarpy.io.xml.base import Serializable, Arrayable, SerializableArray, \
-    ParametersCollection, parse_float
+    ParametersCollection, parse_float, get_node_value
 from sarpy.io.xml.descriptors import StringDescriptor, StringEnumDescriptor, \
     FloatDescriptor, IntegerDescriptor, SerializableDescriptor, \
     SerializableArrayDescriptor, UnitVectorDescriptor, ParametersDescriptor
@@ -277,10 +278,13 @@ class WaveformParametersType(Serializable):
         self.RcvIFBandwidth = RcvIFBandwidth
         self.RcvFreqStart = RcvFreqStart
         # NB: self.RcvDemodType is read only.
-        if RcvDemodType == 'CHIRP' and RcvFMRate is None:
-            self.RcvFMRate = 0.0
-        elif RcvDemodType == 'STRETCH' and RcvFMRate is not None:
+        if isinstance(RcvDemodType, ElementTree.Element):
+            # deserialization from xml hands over the node, not its text
+            RcvDemodType = get_node_value(RcvDemodType)
+        if RcvFMRate is not None:
             self.RcvFMRate = RcvFMRate
+        elif RcvDemodType == 'CHIRP':
+            self.RcvFMRate = 0.0
         else:
             self.RcvFMRate = None
         self.index = index
